@@ -108,9 +108,11 @@ func (e *Exec) RunInit() *State {
 	func() {
 		defer func() {
 			if r := recover(); r != nil {
-				if _, ok := r.(*UnsupportedErr); !ok {
+				u, ok := r.(*UnsupportedErr)
+				if !ok {
 					panic(r)
 				}
+				e.InitIncomplete = u.Msg
 			}
 		}()
 		// do not run dependency initializers: skip calls to other packages' init
